@@ -205,9 +205,14 @@ class Interp:
         pool_arr = np.empty(len(pool) + 1, dtype=object)
         for i, p in enumerate(pool):
             pool_arr[i] = p
+        def look(r):
+            r = np.asarray(r)
+            o = np.empty(r.size, dtype=object)
+            o[:] = pool_arr[r.reshape(-1)]
+            return o.reshape(r.shape)
         if not eqn.primitive.multiple_results:
-            return pool_arr[np.asarray(res)].reshape(np.asarray(res).shape)
-        return [pool_arr[np.asarray(r)].reshape(np.asarray(r).shape) for r in res]
+            return look(res)
+        return [look(r) for r in res]
 
     # ---- structural primitives
     def p_broadcast_in_dim(self, eqn, x, *dyn):
